@@ -69,6 +69,7 @@ def judge(ctx, tr, driver, counts):
     for f in fails:
         e = ev[f["i"] - 1]
         c = classify(e, f["mon"])
+        c["conforms"] = f.get("conforms", True)
         k = (c["monitor"], c["class"])
         seen[k] = seen.get(k, 0) + 1
         counts[c["class"]] = counts.get(c["class"], 0) + 1
